@@ -27,19 +27,21 @@ def run(chk):
                        'accumulator (case evaluation by entailment); (R5) accumulators are per-thread rows reduced after the loop, '
                        'counts are int64, means divide only non-empty bins; (R6) the loops cover [0,n)x[0,n)x[0,n//2+1).')
     chk.rule('C08-R1', 'folded square == min(X, n-X)^2 for every X in [0,n) and every n (odd and even)', 4)
+    chk.rule('C08-R8', 'every exit on the last edge of an axis has the strictness of that axis: |k|, k_perp, k_par open at the top (>=), mu closed (>)', 3)
     chk.rule('C08-R2', 'break / carried search cursor only on a quantity that is non-decreasing in the loop variable', 4)
     chk.rule('C08-R3', 'each search loop "while X > E[b+1]" is dominated by "X >= E[-1]" exit (or a documented bound on X)', 4)
     chk.rule('C08-R4', 'mode weight is 1 for k=0 and 2k=n, 2 otherwise, for counts and all weighted sums alike', 6)
     chk.rule('C08-R5', 'per-thread accumulators: sized by the thread count, row = get_thread_id(), int64 counts, summed over axis 0, guarded division', 8)
     chk.rule('C08-R6', 'loops i,j in [0,n), k in [0,n//2+1); mesh value read at [i,j,k]', 2)
     chk.rule('C08-R7', 'P_n(mu^2, l) is the Legendre polynomial P_l(mu) for l = 0..6, 8, 10 (even and odd orders; exact identity in powers of mu); pole weight = (2l+1) P_l', 10)
-    chk.assume('which side of an edge a mode lying exactly on it falls is not fixed by the statement (float32 rounding decides)')
+    chk.assume('which side of an INTERIOR edge a mode lying exactly on it falls is not fixed by the statement (float32 rounding decides); the two ends of each axis are fixed by the reviewed table TOP_EDGE (R8) and the lower range tests (R3)')
     chk.assume('mu^2 = k^2/|k|^2 <= 1 <= muedges[-1] ("mu ranges from 0 to 1"): the mu search needs no explicit guard')
     src = chk.src
     for q in KERNELS:
         fn = src.func(PS, q)
         fold(chk, fn, q, 'C08-R1')
         mono_rules(chk, fn, q)
+        top_edge_rule(chk, fn, q)
         guards(chk, fn, q)
         hermitian(chk, fn, q)
         accumulators(chk, fn, q)
@@ -397,6 +399,46 @@ def _add(a, b):
     if UNK in (a, b):
         return UNK
     return NON
+
+
+# Which end of the binned range belongs to it, per axis (reviewed data, from the docstrings and the comments of the repairs F34/F44):
+# |k|, k_perp and k_par are binned on [first edge, last edge) -- a mode exactly at the last edge is outside; mu is a bounded quantity,
+# 0 <= mu <= 1, binned on [first edge, last edge]: with the standard edges linspace(0, 1, n+1) the line-of-sight modes (mu = 1) are
+# modes of the mesh inside the range and belong to the last wedge ("closed range test").
+TOP_EDGE = {'kedges2': 'open', 'piedges2': 'open', 'muedges2': 'closed'}
+
+
+def top_edge_rule(chk, fn, q):
+    """Every exit (break / continue) on `X <op> E[-1]` uses the strictness that matches the axis: open top -> `>=`, closed top -> `>`."""
+    n = 0
+    for iff in [x for x in walk_no_nested(fn) if isinstance(x, ast.If) and any(isinstance(b, (ast.Break, ast.Continue)) for b in x.body)]:
+        tests = list(iff.test.values) if isinstance(iff.test, ast.BoolOp) and isinstance(iff.test.op, ast.Or) else [iff.test]
+        for t in tests:
+            neg = False
+            if isinstance(t, ast.UnaryOp) and isinstance(t.op, ast.Not):
+                t, neg = t.operand, True
+            if not (isinstance(t, ast.Compare) and len(t.ops) == 1):
+                continue
+            l, r, op = t.left, t.comparators[0], type(t.ops[0])
+            # normalise to  X <op> E[-1]
+            if isinstance(l, ast.Subscript) and unparse(l.slice) == '-1':
+                l, r = r, l
+                op = {ast.Lt: ast.Gt, ast.LtE: ast.GtE, ast.Gt: ast.Lt, ast.GtE: ast.LtE}.get(op, op)
+            if not (isinstance(r, ast.Subscript) and unparse(r.slice) == '-1' and isinstance(r.value, ast.Name) and r.value.id in TOP_EDGE):
+                continue
+            if neg:
+                op = {ast.Lt: ast.GtE, ast.LtE: ast.Gt, ast.Gt: ast.LtE, ast.GtE: ast.Lt}.get(op, op)
+            if op not in (ast.Gt, ast.GtE):
+                continue
+            kind = TOP_EDGE[r.value.id]
+            ok = (op is ast.GtE) if kind == 'open' else (op is ast.Gt)
+            n += 1
+            chk.check(ok, 'C08-R8', PS, q, f'exit on {unparse(l)} against the last edge of {r.value.id}: the range is {kind} at the top', unparse(t),
+                      f'{unparse(iff.test)}: the {r.value.id} axis is binned on a range that is {kind} at its last edge, so the exit has to be '
+                      + ('`>=`' if kind == 'open' else '`>` (a mode exactly at the last edge -- mu = 1, the line-of-sight modes with the standard edges -- is inside the range and '
+                         'belongs to the last bin; with `>=` it leaves the loop uncounted: counts, means and multipoles of its k bin are taken over the wrong mode set)'), node=iff)
+    if n == 0:
+        raise AnalysisError(f'{q}: no upper range exit found')
 
 
 def mono_rules(chk, fn, q):
